@@ -42,6 +42,12 @@ def _menu():
     out.append({'s': 'setup_err', 'e': 'BadStr'})
     out.append({'s': 'teardown_err', 'e2': 'BadStr'})
     out.append({'s': 'sub:0,1,1', 'e': 'BadStr'})
+    # doctest cases: their failures take the DocTestFailureException path of
+    # the formatter
+    out.append({'dt': 'string', 's': 'fail', 'dk': 'diff'})
+    out.append({'dt': 'string', 's': 'fail', 'dk': 'exc'})
+    out.append({'dt': 'file', 's': 'fail', 'dk': 'diff'})
+    out.append({'dt': 'file', 's': 'fail', 'dk': 'exc', 'msg': 'caf\xe9 \u2028 <x>'})
     return out
 
 
@@ -94,7 +100,7 @@ def run_case(case):
     argv = argv_of(buf, v, mode)
     res = runrt.run_world(spec, argv)
     sv = monitors.SpecView(spec)
-    kinds = sorted({(s['s'] if isinstance(s, dict) else s) for s in scripts if s != 'pass'})
+    kinds = sorted({((s.get('dt', '') + s['s']) if isinstance(s, dict) else s) for s in scripts if s != 'pass'})
     sig = {'buf': buf, 'mode': mode, 'scripts': kinds, 'lf': sorted(h for d in lf.values() for h in d)}
     viol = []
 
